@@ -91,7 +91,7 @@ class _Proxy:
         object.__setattr__(self, "_inj", inj)
 
     def write(self, data):
-        self._inj.tick("write")
+        self._inj.tick("write", getattr(self._f, "name", None))
         return self._f.write(data)
 
     def writelines(self, lines):
@@ -121,15 +121,40 @@ class Injector:
         self.at = at
         self.n = 0
         self.kinds = []
+        self.sites = []         # (kind, path) of every write-side call, in order
         self.fired = None
 
-    def tick(self, kind):
+    def tick(self, kind, path=None):
         i = self.n
         self.n += 1
         self.kinds.append(kind)
+        self.sites.append((kind, str(path)))
         if self.at is not None and i == self.at:
             self.fired = kind
             raise InjectedFault(errno.ENOSPC, f"injected fault at write-side call {i} ({kind})")
+
+
+def stratified(sites, budget, rng):
+    """call numbers to inject at when not all can be afforded: first the first call of every (kind, file) - every
+    directory creation, the opening of every file written and its first write -, then the last call of every (kind, file),
+    then a random fill; a tier that does not fit is thinned evenly so that the spread over files is kept"""
+    groups = {}
+    for i, site in enumerate(sites):
+        groups.setdefault(site, []).append(i)
+    tier1 = sorted({idx[0] for idx in groups.values()})
+    tier2 = sorted({idx[-1] for idx in groups.values()} - set(tier1))
+    chosen = []
+    for tier in (tier1, tier2):
+        room = budget - len(chosen)
+        if room <= 0:
+            break
+        if len(tier) > room:
+            step = len(tier) / float(room)
+            tier = sorted({tier[min(len(tier) - 1, int(j * step))] for j in range(room)})
+        chosen += tier
+    rest = [i for i in range(len(sites)) if i not in set(chosen)]
+    rng.shuffle(rest)
+    return sorted(chosen + rest[: max(0, budget - len(chosen))])
 
 
 @contextlib.contextmanager
@@ -140,15 +165,15 @@ def inject(inj):
     def fopen(file, mode="r", *a, **k):
         if isinstance(file, int) or not any(c in str(mode) for c in "wax+"):
             return real_open(file, mode, *a, **k)
-        inj.tick("open")
+        inj.tick("open", file)
         return _Proxy(real_open(file, mode, *a, **k), inj)
 
     def fmkdir(path, *a, **k):
-        inj.tick("mkdir")
+        inj.tick("mkdir", path)
         return real_mkdir(path, *a, **k)
 
     def fmakedirs(path, *a, **k):
-        inj.tick("makedirs")
+        inj.tick("makedirs", path)
         # os.makedirs calls the real mkdir of this module's namespace: do not count twice
         os.mkdir = real_mkdir
         try:
